@@ -133,7 +133,7 @@ func cmdExtract(args []string) int {
 	dir := fs.String("dir", "", "work dir")
 	big := fs.Int("big", 300, "size of the big input in KiB")
 	extra := fs.Int("extra", 0, "additional random declaration files")
-	envs := fs.String("envs", "ro_dir,longname,ro_file,wx_dir", "environments besides normal")
+	envs := fs.String("envs", "ro_dir,longname,ro_file,wx_dir,perr:rename,perr:close,perr:chmod,perr:write,perr:creat,perr:unlink,perr:fsync", "environments besides normal")
 	fs.Parse(args) // nolint:errcheck
 	r := rand.New(rand.NewSource(hx.Seed()))
 	inDir := filepath.Join(*dir, "inputs")
@@ -216,7 +216,7 @@ func cmdExtract(args []string) int {
 		if s.name == "decl" || s.name == "snippet" {
 			_ = shortDecl
 			for _, env := range strings.Split(*envs, ",") {
-				if env == "" || env == "normal" {
+				if env == "" || env == "normal" || (strings.HasPrefix(env, "perr:") && s.name != "decl") {
 					continue
 				}
 				ie := in
@@ -227,6 +227,15 @@ func cmdExtract(args []string) int {
 					continue
 				}
 				ie.Steps, ie.End = o.Events, o.Exit
+				if strings.HasPrefix(env, "perr:") {
+					hit := false
+					for _, e := range o.Events {
+						hit = hit || e.Res == "err"
+					}
+					if !hit {
+						continue // the command never issues such a call: same protocol as in the normal environment
+					}
+				}
 				inputs = append(inputs, ie)
 			}
 		}
@@ -435,13 +444,16 @@ func runOne(falco, base string, in *Input, rs runSpec) Obs {
 			st = &in.Steps[f.At-1]
 		}
 		switch {
-		case strings.HasPrefix(rs.How, "inject:"):
-			en, ok := errnos[strings.TrimPrefix(rs.How, "inject:")]
+		case strings.HasPrefix(rs.How, "inject:"), strings.HasPrefix(rs.How, "pinject:"):
+			en, ok := errnos[rs.How[strings.Index(rs.How, ":")+1:]]
 			if !ok {
 				o.Err = "unknown errno in " + rs.How
 				return o
 			}
 			tp = tamper{at: f.At, kind: "err", errno: en}
+			if strings.HasPrefix(rs.How, "pinject:") {
+				tp.kind = "perr"
+			}
 		case rs.How == "kill":
 			tp = tamper{at: f.At, kind: "kill"}
 		case rs.How == "short":
@@ -487,6 +499,13 @@ func runOne(falco, base string, in *Input, rs runSpec) Obs {
 		}
 	}
 	tp.left = leftPaths
+	if strings.HasPrefix(in.Env, "perr:") { // environment: every call of one kind fails
+		tp.pOp = strings.TrimPrefix(in.Env, "perr:")
+		tp.pErrno = map[string]syscall.Errno{"write": syscall.ENOSPC, "close": syscall.EIO, "chmod": syscall.EPERM, "fsync": syscall.EIO}[tp.pOp]
+		if tp.pErrno == 0 {
+			tp.pErrno = syscall.EACCES
+		}
+	}
 	tr := trace(argv, rundir, append(cleanEnv(), "HOME="+rundir), target, tp)
 	if tr.err != nil {
 		o.Err = "tracer: " + tr.err.Error()
@@ -559,8 +578,8 @@ func realised(in *Input, f *Fault, how string, evs []Event, exit string) (bool, 
 		return false, fmt.Sprintf("call %d is %s(%s), protocol has %s(%s)", f.At, e.Op, e.Obj, st.Op, st.Obj)
 	}
 	switch f.F {
-	case "err":
-		if e.Res == "err" && (e.Inj || !strings.HasPrefix(how, "inject:")) {
+	case "err", "tmp", "perr":
+		if e.Res == "err" && (e.Inj || !(strings.HasPrefix(how, "inject:") || strings.HasPrefix(how, "pinject:"))) {
 			return true, ""
 		}
 		return false, "call did not fail: " + e.Res
@@ -695,69 +714,94 @@ func cmdMulti(args []string) int {
 	rounds := fs.Int("rounds", 4, "commands (round 0 runs under the tracer with delayed openat)")
 	fs.Parse(args) // nolint:errcheck
 	r := rand.New(rand.NewSource(hx.Seed() + 7))
-	src := filepath.Join(*dir, "multi_src")
-	os.MkdirAll(src, 0o755) // nolint:errcheck
 	type mf struct {
 		Input
+		rel        string
 		orig, newb []byte
 	}
-	files := make([]*mf, *n)
-	for i := range files {
-		text := fmt.Sprintf("# file %d\n", i) + genDecl(r, 1+r.Intn(3))
-		f := &mf{Input: Input{Name: fmt.Sprintf("mf%03d", i), Env: "multi", Olen: len(text), Left: -1}, orig: []byte(text)}
-		f.File = filepath.Join(src, f.Name+".vcl")
-		os.WriteFile(f.File, f.orig, 0o644) // nolint:errcheck
-		files[i] = f
+	// the files of one command live in SEVERAL directories with different (and absent) configuration files; the
+	// reference text of every file is what a separate `falco fmt FILE` prints in the same working directory
+	subdirs := []struct{ name, cfgName, cfg string }{
+		{".", "", ""},
+		{"svcA", ".falco.yml", "format:\n  indent_width: 4\n  comment_style: slash\n"},
+		{"svcB", "", ""},
+		{"svcC/vcl", ".falco.yaml", "format:\n  indent_width: 8\n  sort_declaration: true\n"},
 	}
-	var wg sync.WaitGroup
-	sem := make(chan struct{}, 16)
-	bad := make(chan string, *n)
-	for _, f := range files {
-		wg.Add(1)
-		sem <- struct{}{}
-		go func(f *mf) {
-			defer wg.Done()
-			defer func() { <-sem }()
-			rc, so, _ := runFalco(*falco, []string{"fmt", f.File}, src)
-			if rc != 0 {
-				bad <- f.Name
-				return
-			}
-			f.Fmt, f.L, f.newb = "text", len(so), so
-			f.Opfx = f.L + 1
-			if len(f.orig) <= len(so) && bytes.Equal(so[:len(f.orig)], f.orig) {
-				f.Opfx = len(f.orig)
-			}
-		}(f)
-	}
-	wg.Wait()
-	select {
-	case b := <-bad:
-		fmt.Fprintln(os.Stderr, "falco fmt failed on generated file", b)
-		return 2
-	default:
+	texts := make([]string, *n)
+	for i := range texts {
+		texts[i] = fmt.Sprintf("# file %d\n", i) + genDecl(r, 1+r.Intn(3))
 	}
 	out := hx.NewOut()
 	defer out.Close()
-	var ins []Input
-	for _, f := range files {
-		ins = append(ins, f.Input)
-	}
-	out.Write(map[string]any{"files": ins})
 	for round := 0; round < *rounds; round++ {
 		rd, err := os.MkdirTemp(filepath.Join(*dir, "runs"), "m")
 		if err != nil {
 			fmt.Fprintln(os.Stderr, err)
 			return 2
 		}
-		argv := []string{*falco, "fmt", "-w"}
-		for _, f := range files {
-			p := filepath.Join(rd, f.Name+".vcl")
-			os.WriteFile(p, f.orig, 0o644) // nolint:errcheck
-			argv = append(argv, p)
+		rootCfg := ""
+		if round%2 == 1 { // every second command runs where the working directory has a configuration file of its own
+			rootCfg = "format:\n  indent_width: 3\n  trailing_comment_width: 2\n"
+			os.WriteFile(filepath.Join(rd, ".falco.yml"), []byte(rootCfg), 0o644) // nolint:errcheck
 		}
+		for _, sd := range subdirs {
+			os.MkdirAll(filepath.Join(rd, sd.name), 0o755) // nolint:errcheck
+			if sd.cfgName != "" {
+				os.WriteFile(filepath.Join(rd, sd.name, sd.cfgName), []byte(sd.cfg), 0o644) // nolint:errcheck
+			}
+		}
+		files := make([]*mf, *n)
+		argv := []string{*falco, "fmt", "-w"}
+		for i := range files {
+			f := &mf{Input: Input{Name: fmt.Sprintf("mf%d_%03d", round, i), Env: "multi", Olen: len(texts[i]), Left: -1}, orig: []byte(texts[i])}
+			f.rel = filepath.Join(subdirs[i%len(subdirs)].name, fmt.Sprintf("f%03d.vcl", i))
+			f.File = filepath.Join(rd, f.rel)
+			os.WriteFile(f.File, f.orig, 0o644) // nolint:errcheck
+			files[i] = f
+			argv = append(argv, f.File)
+		}
+		// references: one `falco fmt FILE` per file, same working directory, same path
+		var wg sync.WaitGroup
+		sem := make(chan struct{}, 16)
+		bad := make(chan string, *n)
+		for _, f := range files {
+			wg.Add(1)
+			sem <- struct{}{}
+			go func(f *mf) {
+				defer wg.Done()
+				defer func() { <-sem }()
+				cmd := exec.Command(*falco, "fmt", f.File)
+				cmd.Dir = rd
+				cmd.Env = cleanEnvMulti()
+				so, err := cmd.Output()
+				if err != nil {
+					bad <- f.rel
+					return
+				}
+				f.Fmt, f.L, f.newb = "text", len(so), so
+				f.Opfx = f.L + 1
+				if len(f.orig) <= len(so) && bytes.Equal(so[:len(f.orig)], f.orig) {
+					f.Opfx = len(f.orig)
+				}
+			}(f)
+		}
+		wg.Wait()
+		select {
+		case b := <-bad:
+			fmt.Fprintln(os.Stderr, "falco fmt failed on generated file", b)
+			return 2
+		default:
+		}
+		var ins []Input
+		for _, f := range files {
+			ins = append(ins, f.Input)
+		}
+		out.Write(map[string]any{"files": ins})
 		exit := "ok"
 		how := "plain"
+		if rootCfg != "" {
+			how = "plain, configuration file in the working directory"
+		}
 		if round == 0 {
 			how = "traced, openat delayed 300us"
 			tr := trace(argv, rd, cleanEnvMulti(), filepath.Join(rd, "-none-"), tamper{delayOpen: 300 * time.Microsecond})
@@ -785,8 +829,8 @@ func cmdMulti(args []string) int {
 			}
 		}
 		for _, f := range files {
-			after, rerr := os.ReadFile(filepath.Join(rd, f.Name+".vcl"))
-			o := Obs{ID: fmt.Sprintf("multi-r%d-%s", round, f.Name), Inp: f.Name, Sched: []Fault{}, How: how, Realised: true, Events: []Event{},
+			after, rerr := os.ReadFile(f.File)
+			o := Obs{ID: "multi-" + f.Name, Inp: f.Name, Sched: []Fault{}, How: how + " (" + filepath.Dir(f.rel) + ")", Realised: true, Events: []Event{},
 				Exit: exit, File: classify(after, rerr == nil, f.orig, f.newb, true)}
 			out.Write(o)
 		}
